@@ -45,7 +45,8 @@ prop("C22",
      residual="printing of A1/R1C1 addresses (format!) and sheet-name quoting read back by the lexer are string code outside Verus' reach")
 
 prop("C11",
-     units=["colcodec", "fmtpanic", "lexpanic", "refparse", "fmtlex", "cursor", "f4"],
+     units=["colcodec", "fmtpanic", "lexpanic", "refparse", "fmtlex", "cursor", "f4", "dates"],
+     scans=["chrono-panicking-ops"],
      level="proof",
      claim="no panic (overflow, index, unwrap, division) in the listed text-consuming functions for ANY input string",
      assumptions=["std string functions do not panic on valid &str (their vstd/assumed specs)"],
@@ -125,7 +126,7 @@ prop("C08",
 
 prop("C21",
      units=["dates"],
-     scans=["date-offset-sites"],
+     scans=["date-offset-sites", "chrono-panicking-ops"],
      level="proof",
      claim="for EVERY serial s in [1, 2958465] from_excel_date(s) is the calendar day with day count s + EXCEL_DATE_BASE, "
            "date_to_serial_number(d,m,y) is civil_days(y,m,d) - EXCEL_DATE_BASE exactly when the date exists, EXCEL_DATE_BASE and both range ends "
